@@ -70,7 +70,7 @@ DomOK(e, a) ==
     [] e.op = "getitem"     -> Dom_Index(P, a[1])
     [] e.op = "odds"        -> Dom_Background(P, a[1])
     [] e.op = "seqprob"     -> /\ WellFormedSeq(a[1]) /\ Dom_ProfileSequence(P, a[1])
-                               /\ Dom_ProductFits(P, <<>>, IF a[2] < 0 THEN 0 ELSE a[2])
+                               /\ Dom_ProbProductFits(P, IF a[2] < 0 THEN 0 ELSE a[2])
     [] e.op = "seqscore"    -> /\ WellFormedSeq(a[1]) /\ Dom_ProfileSequence(P, a[1]) /\ Dom_Background(P, a[2])
                                /\ Dom_ProductFits(P, a[2], IF a[3] < 0 THEN 0 ELSE a[3])
     [] e.op = "str"         -> Dom_StrLetters(P)
